@@ -468,7 +468,13 @@ pub fn run(cases_path: &str, out_path: &str, tier: &str, seed: u64) {
         let check = c["check"].as_bool().unwrap();
         let e_ok = c["expect"]["ok"].as_bool().unwrap();
         let e_status = c["expect"]["status"].as_str().unwrap();
-        for &n in &var_ns {
+        // "core" variants (at most one tolerance feature, or all of them, no headers) are swept over
+        // every length 0..sweep so that any internal buffer edge of the reader is crossed
+        let feats = ["lead", "sepws", "blankbody", "blankcrc", "blankend"].iter().filter(|f| v[**f].as_bool().unwrap()).count();
+        let core = (feats <= 1 || feats == 5) && v["hdrs"].as_u64().unwrap() == 0;
+        let sweep: usize = if thorough { 3300 } else { 1700 };
+        let ns: Vec<usize> = if core { (0..sweep).collect() } else { var_ns.clone() };
+        for &n in &ns {
             let mut r = rng(seed ^ 0xA5 ^ (n as u64) << 8);
             let mut data = vec![0u8; n];
             r.fill_bytes(&mut data);
@@ -528,6 +534,9 @@ pub fn run(cases_path: &str, out_path: &str, tier: &str, seed: u64) {
                 t.push_str(eol);
                 for (si, sched) in [vec![], vec![1usize], vec![5, 64, 3]].iter().enumerate() {
                     if si == 1 && n > 100 {
+                        continue;
+                    }
+                    if core && n > 100 && si == 2 && n % 7 != 0 {
                         continue;
                     }
                     let o = dearmor(t.as_bytes(), check, sched, if si == 2 { 5 } else { 0 });
